@@ -378,6 +378,7 @@ class Run:
         self.cache = []          # (key, identity index) in insertion order
         self.results = []        # per step: identity index or None
         self.requests = {}       # canonical request -> identity index of the object it returned
+        self.req_caps = []       # (requested caption or "", identity index) of the successful creation requests
         self.viol = []
         self.notes = {}
 
@@ -673,6 +674,17 @@ class Run:
                             self.bad(step, "the same request repeated returns the identical object", request=o,
                                      first=self.requests[rk], now=r[1])
                         self.requests.setdefault(rk, r[1])
+                    if o["k"] in ("obtain", "derived"):
+                        # requests that resolve to different captions must return unequal quantities
+                        want = o["cap"] or ""
+                        for cap0, i0 in self.req_caps:
+                            if cap0 != want and (i0 == r[1] or self.known[i0] == q):
+                                self.bad(step, "requests that resolve to different captions return unequal quantities",
+                                         request=o, caption_requested=want, earlier_caption=cap0,
+                                         returned=repr(q), returned_caption=q.GetUnknownCaption())
+                                break
+                        if (want, r[1]) not in self.req_caps:
+                            self.req_caps.append((want, r[1]))
                 else:
                     self.results.append(None)
                 ob["r"] = r
